@@ -27,7 +27,7 @@
 From Coq Require Import ZArith List Bool.
 From Coq.Strings Require Import Byte String.
 From TS Require Import Bytes Codec State Prog Ops Interp NopSpec StackLemmas SigSpec TimeSpec CodecProofs
-  Builders BuilderSpec BuilderSpecC14.
+  Builders BuilderSpec BuilderSpecC14 BuilderSpecC14b.
 Import ListNotations.
 Local Open Scope nat_scope.
 
@@ -257,6 +257,67 @@ Example C14_example_pack :
   cert_unpack (toy_D ++ toy_begin ++ toy_end ++ [xff] ++ toy_csig) = Some (toy_D, 900%Z, 1100%Z, true, toy_csig).
 Proof. split; vm_compute; reflexivity. Qed.
 
+(* ---------------- the chain lock (proofs/BuilderSpecC14b.v), on the real bytes, for chains of ANY length ----------------
+   init = the non-final certificates in the order the lock consumes them (the first is signed by the root), cn = the
+   last one; pack = Certificate.pack.  chain_accepts unfolds (chain_pred) to: every certificate verifies under the
+   previous key (the first under root) and is inside its window at t; every non-final certificate's may-delegate byte
+   is non-zero; the final signature is accepted under the last delegate key. *)
+Theorem C14_chain_lock_exact :
+  forall orc cfg, 105 <= c_max_item_size cfg ->
+  forall fl ts thr, flag_get (c_flags cfg) thr_key = Some (FVInt thr) ->
+  forall sig, (List.length sig = 64 \/ List.length sig = 65) ->
+  forall root, List.length root = 32 ->
+  forall (init : list cert) (cn : cert) (f : nat) (vals : cache),
+  Forall cert_wf init -> cert_wf cn ->
+  2 * S (List.length init) + 3 <= c_max_items cfg ->
+  (Z.of_nat (S (List.length init)) <= c_limit cfg)%Z ->
+  cache_get (init_cache cfg vals) ts_key = Some (VOne (AInt ts)) ->
+  match run_auth_scripts orc cfg (31 * S (List.length init) + 4 + f)
+          [delegate_key_chain_witness sig (pack cn) (map pack (rev init)); delegate_key_chain_lock root fl] vals with
+  | AuthVerdict v _ => v = true <-> chain_accepts orc cfg fl ts thr sig root (init_cache cfg vals) init cn
+  | AuthFuel => False
+  | AuthUnmod _ => chain_unmod orc cfg ts thr sig root (init_cache cfg vals) init cn
+  end.
+Proof. exact chain_lock_exact. Qed.
+
+(* what chain_accepts says, by cases on the chain *)
+Theorem C14_chain_accepts_meaning :
+  forall orc cfg fl ts thr sig root c0 cn,
+  (chain_accepts orc cfg fl ts thr sig root c0 [] cn <->
+     cert_ok orc cfg ts thr root cn /\ sig_accepts orc cfg (cD cn) sig (b2z fl) c0) /\
+  (forall ci init,
+   chain_accepts orc cfg fl ts thr sig root c0 (ci :: init) cn <->
+     cert_ok orc cfg ts thr root ci /\ ccan ci <> x00 /\
+     chain_accepts orc cfg fl ts thr sig (cD ci) c0 init cn).
+Proof. intros. split; [|intros ci init]; unfold chain_accepts; simpl; tauto. Qed.
+
+(* a chain longer than the call-stack limit is always refused: the budget condition of the theorem is exact *)
+Theorem C14_chain_lock_over_budget :
+  forall orc cfg, 105 <= c_max_item_size cfg ->
+  forall fl ts thr, flag_get (c_flags cfg) thr_key = Some (FVInt thr) ->
+  forall sig, (List.length sig = 64 \/ List.length sig = 65) ->
+  forall root, List.length root = 32 ->
+  forall (init : list cert) (cn : cert) (f : nat) (vals : cache),
+  Forall cert_wf init -> cert_wf cn ->
+  2 * S (List.length init) + 3 <= c_max_items cfg ->
+  (c_limit cfg < Z.of_nat (S (List.length init)))%Z ->
+  cache_get (init_cache cfg vals) ts_key = Some (VOne (AInt ts)) ->
+  match run_auth_scripts orc cfg (31 * S (List.length init) + 4 + f)
+          [delegate_key_chain_witness sig (pack cn) (map pack (rev init)); delegate_key_chain_lock root fl] vals with
+  | AuthVerdict v _ => v = false
+  | _ => False
+  end.
+Proof. exact chain_lock_over_budget. Qed.
+
+(* observations proved on a toy oracle (and reproduced on the implementation): the LAST certificate's may-delegate byte is
+   never looked at; a non-final certificate with byte 00 ends the chain (the next certificate is then taken for a
+   signature and refused); ANY non-zero byte lets the chain go on, while Certificate.unpack reads only ff as True *)
+Definition C14_chain_observations := (dk_last_can_ignored, dk_terminal_cannot_delegate, dk_can_01_delegates, dk_flag_lies).
+
+Print Assumptions C14_chain_lock_exact.
+Print Assumptions C14_chain_accepts_meaning.
+Print Assumptions C14_chain_lock_over_budget.
+Print Assumptions C14_chain_observations.
 Print Assumptions C14_delegate_lock_exact.
 Print Assumptions C14_delegate_lock_true_iff.
 Print Assumptions C14_end_test_meaning.
